@@ -396,11 +396,36 @@ class Escape:
                     self._note_discharge(f, n, "overflow", "divisor is not a float on this path: int%int and float%int cannot overflow")
                 for exc in excs:
                     out.setdefault((exc, o), None)
+        elif isinstance(n, ast.FormattedValue) or (isinstance(n, ast.Call) and dotted(n.func) in ("repr", "str", "ascii", "format")
+                                                    and len(n.args) >= 1):
+            # rendering a caller-supplied value as text: int -> str conversion is bounded by
+            # sys.get_int_max_str_digits() (ValueError beyond 4300 digits since CPython 3.11)
+            v = n.value if isinstance(n, ast.FormattedValue) else n.args[0]
+            if isinstance(v, ast.Name) and self._is_value_param(v.id, f):
+                o = self._origin(f, n, "partial", norm(n) if not isinstance(n, ast.FormattedValue) else "{" + norm(v) + "}")
+                out.setdefault(("ValueError", o), None)
         elif isinstance(n, ast.AugAssign) and isinstance(n.op, (ast.Div, ast.FloorDiv, ast.Mod, ast.Pow)):
             o = self._origin(f, n, "partial", norm(n))
             out.setdefault(("ZeroDivisionError", o), None)
             out.setdefault(("OverflowError", o), None)
         return out
+
+    VALUE_PARAM_NAMES = ("value", "data", "sub_value", "instance")
+
+    def _is_value_param(self, name, f):
+        """`name` is a parameter that carries the caller's (JSON) value."""
+        g = f
+        while g is not None:
+            p = g.param(name)
+            if p is not None:
+                if name not in self.VALUE_PARAM_NAMES:
+                    return False
+                ann = norm(p.annotation) if p.annotation is not None else ""
+                return ann not in ("str", "bool")
+            if name in g.locals():
+                return False
+            g = g.parent
+        return False
 
     def _note_discharge(self, f, node, what, reason):
         key = (f.qualname, id(node))
